@@ -1263,7 +1263,7 @@ def sweep_case(args):
     from migen import Module
     bw = rng.choice((8, 32, 32))
     aw = rng.choice((9, 10, 11))
-    paging = rng.choice((0x100, 0x200, 0x400)) if aw < 11 else rng.choice((0x400, 0x800))
+    paging = rng.choice((0x100, 0x200, 0x400)) if aw < 11 else rng.choice((0x200, 0x400))
     npages = (1 << aw) // (paging // 4)
     pages = rng.sample(range(npages), min(npages, rng.randint(1, 3)))
     if rng.random() < 0.3:
